@@ -29,7 +29,7 @@ ASSUMPTIONS = [
     "dedicated shard",
 ]
 GATES = {
-    "bilateral_clamped_by_image": 1, "suffix_naming_another_step_kind": 5, "optimisation_step_with_a_geometric_prior": 3, "step_gt_1_with_a_suffixed_matching_cost_and_a_filter": 2, "margin_parameter_left_to_its_default": 5, "bilateral_default_after_an_explicit_sigma_space": 2,
+    "bilateral_clamped_by_image": 1, "checked_on_full_multiband_datasets": 5, "suffix_naming_another_step_kind": 5, "optimisation_step_with_a_geometric_prior": 3, "step_gt_1_with_a_suffixed_matching_cost_and_a_filter": 2, "margin_parameter_left_to_its_default": 5, "bilateral_default_after_an_explicit_sigma_space": 2,
     "noncumulative_dominates": 1,
     "cumulative_dominates": 1,
     "step_gt_1": 1,
@@ -209,6 +209,13 @@ def _check_margins(ctx, case, keys, pipe, shape, step=1, validation_compare=True
             if pipes.kind_of(k) == "matching_cost":
                 pipe[k]["band"] = "r"
     ml, mr = _meta(shape, mb)
+    if case.get("draw") == 0 and case.get("idx", 1) % 4 == 0 and shape[0] * shape[1] <= 6000:
+        # the check is made on the datasets themselves (what an API user holds), not on their metadata; three bands
+        im3 = np.zeros((3,) + tuple(shape), np.float32)
+        ml, mr = gen.make_dataset(im3, (-2, 2)), gen.make_dataset(im3, (-2, 2))
+        if not mb:
+            pipe = {k: (dict(v, band="r") if pipes.kind_of(k) == "matching_cost" else v) for k, v in pipe.items()}
+        ctx.gate("checked_on_full_multiband_datasets")
     m = pipes.new_machine()
     pipe = strip_omitted(pipe)
     m.check_conf({"pipeline": copy.deepcopy(pipe)}, ml, mr)
